@@ -175,7 +175,11 @@ def check(run):
                         bad('batch-excludes-everyone', 'batch %s leaves no hopeful candidate' % G, ev)
                     else:
                         nxt = min(outside.values())
-                        if not cfg.cmp(lhs, nxt) < 0:
+                        if cfg.geps > 1 and abs(lhs - nxt) < 2 * cfg.geps:
+                            # the verdict would hinge on a difference inside twice the guarded tolerance (tolerant equality
+                            # is not additive: several tallies each "equal to zero" need not sum to zero)
+                            st['not_eval'] += 1
+                        elif not cfg.cmp(lhs, nxt) < 0:
                             bad('batch-not-sure-losers', 'batch %s: combined tallies + surplus = %s is not below the next tally %s'
                                 % (G, cfg.frac(lhs), cfg.frac(nxt)), ev)
                 # enough electable candidates must remain (mpls write-ins are excluded unconditionally and never fill a seat)
